@@ -256,6 +256,8 @@ H3Index vf_rand_cell(vf_rng *r, int res);
 /* special-neighbourhood seeds at a resolution: pentagons, points on the 30
  * icosahedron edges (nper each), 20 face centres, poles, antimeridian points.
  * Writes up to cap cells, returns count. Deterministic (no rng). */
+int vf_pattern_cells(int res, H3Index *out, int cap); /* digit-pattern cells (long runs of one digit); part of vf_special_seeds */
+int vf_basecell_seam_cells(int res, int npairs, H3Index *out, int cap); /* both sides of base-cell territory seams; part of vf_special_seeds */
 int vf_special_seeds(int res, int nper, H3Index *out, int cap);
 /* cells on / 1e-6..1e-3 rad beside the quarter points and midpoints of the 30 icosahedron edges (3990 seeds) */
 int vf_edge_offset_seeds(int res, H3Index *out, int cap);
